@@ -189,7 +189,7 @@ func propC09(c *Check) {
 		n++
 		c.RequireFact(f, "R5", "rpc-error-propagated", `^\(Client\.CallContext\(.*\) == nil\)$`, nil, "")
 	}
-	c.Floor("R5", "engine RPC wrappers", n, 5)
+	c.Floor("R5", "engine RPC wrappers", n, 3)
 	// callers of the engine do not drop the error result
 	for _, f := range []*ssa.Function{F, p.MustFn("x/goat/keeper.Keeper.createEthBlockProposal"), p.MustFn("x/goat/keeper.Keeper.verifyEthBlockProposal$2")} {
 		for _, ci := range p.FindCalls(f, `^EngineClient\.`) {
@@ -311,7 +311,6 @@ func propC10(c *Check) {
 	c.RequireFact(ah, "R2", "timeout-not-expired", patLE(to, "0")+"|"+lit(EQ("0", to))+"|"+patLE("Context.BlockHeight()", to), tn, "next()")
 	c.RequireFact(ah, "R2", "msgs-readable", lit("(Tx.GetMsgsV2($2)#1 == nil)"), tn, "next()")
 	c.RequireFact(ah, "R2", "proposer-readable", lit("(RelayerKeeper.GetCurrentProposer()#1 == nil)"), tn, "next()")
-	c.RequireFact(ah, "R2", "all-messages-visited", lit("(len(Tx.GetMsgsV2($2)#0) <= φ{(1 + @)|0})"), tn, "next()")
 
 	// mode split: per message, from the ExecMode() call to the next iteration / next(): must pass through the admission of that mode
 	modeCalls := p.FindCalls(ah, `^Context\.ExecMode\(`)
@@ -357,33 +356,77 @@ func propC10(c *Check) {
 				}
 			}
 		}
-		for _, n := range []string{"ExecModeCheck", "ExecModeReCheck", "ExecModePrepareProposal", "ExecModeProcessProposal", "ExecModeFinalize"} {
-			if len(allModeEdges[n]) == 0 {
-				c.Violated("R2", "mode "+n+" @ "+FuncKey(ah), p.InstrPos(mc), "the message loop does not dispatch on this execution mode: messages pass unchecked reason=not-established")
-				continue
-			}
-			// paths for this mode: start after its == edge; they must reach next()/next message only via the admission facts
-			for _, me := range allModeEdges[n] {
-				start := me.Block.Succs[me.Idx].Instrs[0]
-				var pat string
-				if n == "ExecModeProcessProposal" || n == "ExecModeFinalize" {
-					pat = relayerOK + "|" + ethBlock
-				} else {
-					pat = relayerOK
-				}
-				edges := edgeSet(p.MatchEdges(ah, regexp.MustCompile(pat)))
-				ps := &PathSearch{Fn: ah, From: nil, AvoidEdges: edges, IsTarget: nextIter}
-				// search from the start block: emulate by forbidding everything except what is reachable from start
-				ps.From = startMarker(start)
-				t, path := searchFromBlock(ah, me.Block.Succs[me.Idx], edges, nextIter)
-				if t != nil {
-					c.Violated("R2", "mode "+n+" admission @ "+FuncKey(ah), p.InstrPos(t), "in this mode a message reaches next()/the next message without relayerTxOnly (or, in block modes, the exact MsgNewEthBlock name)", p.describePath(path)...)
-				} else {
-					c.Held("R2", "mode "+n+" admission @ "+FuncKey(ah), p.InstrPos(start), "only via relayerTxOnly"+map[bool]string{true: " or the MsgNewEthBlock name", false: ""}[strings.Contains(pat, "MsgNewEthBlock")])
-				}
+		// the instruction that names the message under inspection marks "one message": between two
+		// executions of it (or the last one and next()) the admission of the mode must have succeeded
+		var nameInstr ssa.Instruction
+		for _, ci := range callsIn(ah) {
+			if p.CallStr(ci) == name {
+				nameInstr = ci
 			}
 		}
-		// the MsgNewEthBlock exception requires timeout height == block height, and exists only in block modes
+		if nameInstr == nil {
+			c.Violated("R2", "message-name @ "+FuncKey(ah), p.Pos(ah.Pos()), "the per-message name computation was not found reason=not-established")
+			return
+		}
+		nextIter = func(in ssa.Instruction) bool { return in == nameInstr || tn(in) }
+		modeEdge := regexp.MustCompile(`^\((\d+) (==|!=) Context\.ExecMode\(\)\)$`)
+		loopExit := lit("(len(Tx.GetMsgsV2($2)#0) <= φ{(1 + @)|0})")
+		for _, n := range []string{"ExecModeCheck", "ExecModeReCheck", "ExecModePrepareProposal", "ExecModeProcessProposal", "ExecModeFinalize"} {
+			// the paths of this mode: every branch on ExecMode() is taken the way this mode takes it
+			restrict := map[edgeKey]bool{}
+			for _, ef := range p.EdgeFacts(ah) {
+				if m := modeEdge.FindStringSubmatch(ef.Fact); m != nil {
+					if (m[2] == "==" && m[1] != em[n]) || (m[2] == "!=" && m[1] == em[n]) {
+						restrict[ef.Key()] = true
+					}
+				}
+			}
+			// (a) in this mode next() is reached only through the exit of the loop over all messages
+			around := map[edgeKey]bool{}
+			for k := range restrict {
+				around[k] = true
+			}
+			for _, e := range p.MatchEdges(ah, regexp.MustCompile(loopExit)) {
+				around[e.Key()] = true
+			}
+			if t, path := (&PathSearch{Fn: ah, AvoidEdges: around, IsTarget: tn}).Find(); t != nil {
+				c.Violated("R2", "mode "+n+" all-messages-visited @ "+FuncKey(ah), p.InstrPos(t), "in this mode next() is reachable without the message loop running to its end", p.describePath(path)...)
+				continue
+			}
+			c.Held("R2", "mode "+n+" all-messages-visited @ "+FuncKey(ah), p.InstrPos(nameInstr), "next() only after the loop over all messages ended")
+			// (b) flag states in which the mode reaches a message
+			states := (&PathSearch{Fn: ah, AvoidEdges: restrict, IsTarget: func(in ssa.Instruction) bool { return in == nameInstr }}).FindAll()
+			if len(states) == 0 {
+				c.Violated("R2", "mode "+n+" @ "+FuncKey(ah), p.InstrPos(mc), "the message loop is not reachable in this execution mode: messages pass unchecked reason=not-established")
+				continue
+			}
+			var pat string
+			if n == "ExecModeProcessProposal" || n == "ExecModeFinalize" {
+				pat = relayerOK + "|" + ethBlock
+			} else {
+				pat = relayerOK // the block message has no exception outside a block
+			}
+			avoid := map[edgeKey]bool{}
+			for k := range restrict {
+				avoid[k] = true
+			}
+			for _, e := range p.MatchEdges(ah, regexp.MustCompile(pat)) {
+				avoid[e.Key()] = true
+			}
+			bad := false
+			for _, st := range states {
+				if t, path := (&PathSearch{Fn: ah, From: nameInstr, InitState: st.State, AvoidEdges: avoid, IsTarget: nextIter}).Find(); t != nil {
+					bad = true
+					c.Violated("R2", "mode "+n+" admission @ "+FuncKey(ah), p.InstrPos(t), "in this mode a message reaches next()/the next message without relayerTxOnly (or, in block modes, the exact MsgNewEthBlock name)", p.describePath(path)...)
+					break
+				}
+			}
+			if !bad {
+				c.Held("R2", "mode "+n+" admission @ "+FuncKey(ah), p.InstrPos(nameInstr), "only via relayerTxOnly"+map[bool]string{true: " or the MsgNewEthBlock name", false: ""}[strings.Contains(pat, "MsgNewEthBlock")])
+			}
+		}
+		// the MsgNewEthBlock exception requires timeout height == block height (that it exists only in block
+		// modes is part of the per-mode admission above: mempool modes accept relayerTxOnly alone)
 		if eb := p.MatchEdges(ah, regexp.MustCompile(ethBlock)); len(eb) > 0 {
 			for _, e := range eb {
 				t, path := searchFromBlock(ah, e.Block.Succs[e.Idx], edgeSet(p.MatchEdges(ah, regexp.MustCompile(heightEq))), nextIter)
@@ -392,9 +435,6 @@ func propC10(c *Check) {
 				} else {
 					c.Held("R2", "block-message-timeout=height @ "+FuncKey(ah), p.InstrPos(e.Block.Instrs[len(e.Block.Instrs)-1]), "")
 				}
-				// only reachable under process/finalize mode facts
-				last := e.Block.Instrs[len(e.Block.Instrs)-1]
-				c.RequireFact(ah, "R2", "block-message-only-in-block-modes", lit(modeFact("ExecModeProcessProposal"))+"|"+lit(modeFact("ExecModeFinalize")), instrSet([]ssa.Instruction{last}), "MsgNewEthBlock name test")
 			}
 		} else {
 			c.Note("no MsgNewEthBlock exception found in AnteHandle (stricter than required)")
